@@ -471,16 +471,20 @@ def toolbox_ops(inp):
     return {"checks": res}
 
 
+PIPE_LABELS = [4, 2, 7, 0]      # pipe labels differ from row positions and are not sorted
+
+
 def _graph_net(pp):
+    P = PIPE_LABELS
     net = pp.create_empty_network(fluid="lgas")
     j = pp.create_junctions(net, 6, 1.0, 293.15)
     pp.create_ext_grid(net, j[0], 1.0, 293.15)
     pp.create_ext_grid(net, j[5], 0.9, 293.15)
-    pp.create_pipe_from_parameters(net, j[0], j[1], 0.4, 100.)      # 0
-    pp.create_pipe_from_parameters(net, j[1], j[2], 0.7, 100.)      # 1  (valve attached at j1)
-    pp.create_pipe_from_parameters(net, j[2], j[3], 0.2, 100.)      # 2
-    pp.create_pipe_from_parameters(net, j[1], j[3], 1.5, 100.)      # 3  (long parallel way)
-    pp.create_valve(net, j[1], 1, "pi", 100., opened=True)          # valve 0 on pipe 1
+    pp.create_pipe_from_parameters(net, j[0], j[1], 0.4, 100., index=P[0])      # 0
+    pp.create_pipe_from_parameters(net, j[1], j[2], 0.7, 100., index=P[1])      # 1  (valve attached at j1)
+    pp.create_pipe_from_parameters(net, j[2], j[3], 0.2, 100., index=P[2])      # 2
+    pp.create_pipe_from_parameters(net, j[1], j[3], 1.5, 100., index=P[3])      # 3  (long parallel way)
+    pp.create_valve(net, j[1], P[1], "pi", 100., opened=True)                   # valve 0 on pipe 1
     pp.create_valve(net, j[3], j[4], "ju", 100., opened=True)       # valve 1
     pp.create_pump(net, j[4], j[5], "P1")                            # pump 0
     pp.create_sink(net, j[3], 0.01)
@@ -503,7 +507,8 @@ def graph_vs_solver(inp):
         if res[k]["witness"] is None:
             res[k]["witness"] = w
     base, j = _graph_net(pp)
-    flags = [("pipe", 0, "in_service"), ("pipe", 1, "in_service"), ("pipe", 3, "in_service"), ("valve", 0, "opened"),
+    P = PIPE_LABELS
+    flags = [("pipe", P[0], "in_service"), ("pipe", P[1], "in_service"), ("pipe", P[3], "in_service"), ("valve", 0, "opened"),
              ("valve", 1, "opened"), ("pump", 0, "in_service"), ("ext_grid", 0, "in_service"), ("ext_grid", 1, "in_service"),
              ("junction", 2, "in_service")]
     for pat in itertools.product([True, False], repeat=len(flags)):
@@ -512,7 +517,7 @@ def graph_vs_solver(inp):
             net[t].at[i, c] = v
         # consistent flags: elements at an out-of-service junction are out of service too
         if not net.junction.at[2, "in_service"]:
-            net.pipe.loc[[1, 2], "in_service"] = False
+            net.pipe.loc[[P[1], P[2]], "in_service"] = False
         label = {"%s%d.%s" % f: v for f, v in zip(flags, pat) if not v}
         for multi in (True, False):
             res["one-edge-per-in-service-element"]["cases"] += 1
@@ -557,7 +562,7 @@ def graph_vs_solver(inp):
                 note("components-equal-solver-islands", {"flags_off": label, "graph": [sorted(c) for c in supplied], "solver": sorted(calc)})
     # distances
     net = copy.deepcopy(base)
-    for variant in ({}, {("pipe", 1): False}, {("valve", 0): False}):
+    for variant in ({}, {("pipe", P[1]): False}, {("valve", 0): False}):
         n2 = copy.deepcopy(net)
         for (t, i), v in variant.items():
             n2[t].at[i, "in_service" if t == "pipe" else "opened"] = v
@@ -866,6 +871,46 @@ def mass_balance(inp):
     if len(skipped) > cases // 4 and witness is None:
         witness = {"observed": "vacuous: %d of %d calculations did not converge" % (len(skipped), cases), "skipped": skipped[:6]}
     return {"ok": witness is None, "cases": cases, "witness": witness, "not_converged": skipped}
+
+
+def valve_internal_nodes(inp):
+    """Valve.get_internal_node_number (np.unique(axis=0) / argsort inverse-permutation code) against its specification:
+    one internal node per distinct (junction, pipe) pair of the pipe-attached valves, created at the FIRST row of the pair
+    in table order; every pipe-attached valve is wired to the internal node of its own pair, internal nodes being numbered
+    in the order of the rows that create them"""
+    import pandas as pd
+    from pandapipes.component_models.valve_component import Valve
+    max_rows = int(inp.get("max_rows", 4))
+    cases, witness = 0, None
+    rows_dom = [("ju", 1, 5), ("pi", 1, 2), ("pi", 1, 7), ("pi", 5, 2), ("pi", 9, 7), ("pi", 5, 7)]
+    for n in range(0, max_rows + 1):
+        for rows in itertools.product(rows_dom, repeat=n):
+            cases += 1
+            df = pd.DataFrame({"et": [r[0] for r in rows], "junction": [r[1] for r in rows], "element": [r[2] for r in rows]},
+                              index=[10 + 3 * k for k in range(n)])
+            df["junction"] = df["junction"].astype(np.int64)
+            df["element"] = df["element"].astype(np.int64)
+            net = {"valve": df}
+            pi_rows = [k for k, r in enumerate(rows) if r[0] == "pi"]
+            first = {}
+            for k in pi_rows:
+                first.setdefault((rows[k][1], rows[k][2]), k)
+            creators = sorted(first.values())
+            exp_int = [1 if k in creators else 0 for k in range(n)]
+            exp_grp = [creators.index(first[(rows[k][1], rows[k][2])]) for k in pi_rows]
+            try:
+                int_nodes, grp, mask_p = Valve.get_internal_node_number(net, return_internal_only=False)
+                only = Valve.get_internal_node_number(net)
+                ok = (list(np.asarray(int_nodes)) == exp_int and list(np.asarray(only)) == exp_int
+                      and list(np.asarray(mask_p)) == pi_rows and list(np.asarray(grp)) == exp_grp)
+                obs = {"int_nodes": np.asarray(int_nodes).tolist(), "group_of_pi_rows": np.asarray(grp).tolist(),
+                       "pi_rows": np.asarray(mask_p).tolist()}
+            except Exception as e:  # noqa
+                ok, obs = False, "%s: %s" % (type(e).__name__, str(e)[:160])
+            if not ok and witness is None:
+                witness = {"rows (et, junction, element)": [list(r) for r in rows], "observed": obs,
+                           "expected": {"int_nodes": exp_int, "group_of_pi_rows": exp_grp, "pi_rows": pi_rows}}
+    return {"ok": witness is None, "cases": cases, "witness": witness}
 
 
 def main():
